@@ -2,14 +2,29 @@ import FordModel.Fixed
 import FordModel.FixedSpec
 import FordModel.Reader
 import FordModel.Lemmas.Reader
+import FordModel.Generated.C14
 namespace Ford.Fixed
 open Ford
+
+/-- The variant of the code that `translate/c14.py` reads from the shape of the
+    assignments in `FortranLine.__analyse` (the harness checks that probing the
+    real code gives the same one). -/
+def sourceVariant : Variant :=
+  { blankShort := Gen.blankShort, col7Comment := Gen.col7Comment,
+    spacedExcess := Gen.excessLiteral == ['!', ' '] }
+
+theorem fieldOk_asIs (lab5 : Str) (c6 : Char) (body : Str) : fieldOk Variant.asIs lab5 c6 body = true := by
+  simp [fieldOk, Variant.asIs]
+
+theorem excessMark_cons (v : Variant) :
+    excessMark v = '!' :: (if v.spacedExcess then [' '] else []) := by
+  cases h : v.spacedExcess <;> simp [excessMark, h]
 
 theorem contHead_length (s : List FLine) : (contHead s).length = s.length := by
   cases s <;> simp [contHead]
 
-theorem convGo_length (lim : Bool) (stack : List FLine) (ls : List Str) :
-    (convGo lim stack ls).length = stack.length + ls.length := by
+theorem convGo_length (v : Variant) (lim : Bool) (stack : List FLine) (ls : List Str) :
+    (convGo v lim stack ls).length = stack.length + ls.length := by
   induction ls generalizing stack with
   | nil => simp [convGo]
   | cons l ls ih =>
@@ -65,18 +80,30 @@ theorem take_ljust (n : Nat) (s t : Str) (h : s.length ≤ n) :
 
 /-! ### `analyse` on the lines of a well-formed file -/
 
-theorem analyse_code (lim : Bool) (a b c d e c6 : Char) (body : Str)
+theorem analyse_code (v : Variant) (lim : Bool) (a b c d e c6 : Char) (body : Str)
     (ha : commentHead (some a) = false) (ha' : a ≠ '#')
-    (hb : [b, c, d, e].contains '!' = false) :
-    analyse lim (a :: b :: c :: d :: e :: c6 :: (body ++ ['\n'])) =
-      { conv := freeCode lim (labelOut [a, b, c, d, e]) body false,
+    (hb : [b, c, d, e].contains '!' = false)
+    (hs : (v.blankShort && isBlank (a :: b :: c :: d :: e :: c6 :: (body ++ ['\n']))) = false)
+    (hn : (v.col7Comment && isBlank [a, b, c, d, e, c6] &&
+            ((lstrip (body ++ ['\n'])).head? == some '!')) = false) :
+    analyse v lim (a :: b :: c :: d :: e :: c6 :: (body ++ ['\n'])) =
+      { conv := freeCode v lim (labelOut [a, b, c, d, e]) body false,
         regular := true,
         cont := !(isSpace c6 || c6 == '0'),
         long := lim && decide (body.length > 66),
-        excess := if lim && decide (body.length > 66) then '!' :: (body.drop 66 ++ ['\n']) else [] } := by
+        excess := if lim && decide (body.length > 66) then excessMark v ++ (body.drop 66 ++ ['\n']) else [] } := by
   have hne : (a == '#') = false := by simp [ha']
   simp at hb
   obtain ⟨hb1, hb2, hb3, hb4⟩ := hb
+  have hshort : isShortLine v (a :: b :: c :: d :: e :: c6 :: (body ++ ['\n'])) = false := by
+    simp only [isShortLine, hs, Bool.or_false]
+    simp
+  have hbang : bangLine v (a :: b :: c :: d :: e :: c6 :: (body ++ ['\n'])) = false := by
+    have h0 : (List.take 4 (List.drop 1 (a :: b :: c :: d :: e :: c6 :: (body ++ ['\n'])))).contains '!' = false := by
+      simp [hb1, hb2, hb3, hb4]
+    have h1 : List.take 6 (a :: b :: c :: d :: e :: c6 :: (body ++ ['\n'])) = [a, b, c, d, e, c6] := by simp
+    have h2 : List.drop 6 (a :: b :: c :: d :: e :: c6 :: (body ++ ['\n'])) = body ++ ['\n'] := by simp
+    simp only [bangLine, h0, h1, h2, hn, Bool.or_false]
   by_cases hl : (lim && decide (body.length > 66)) = true
   · have h1 : lim = true := by simp at hl; exact hl.1
     have h2 : 66 < body.length := by simp at hl; exact hl.2
@@ -85,22 +112,22 @@ theorem analyse_code (lim : Bool) (a b c d e c6 : Char) (body : Str)
       List.take_append_of_le_length (by omega)
     have h5 : List.drop 66 (body ++ ['\n']) = List.drop 66 body ++ ['\n'] :=
       List.drop_append_of_le_length (by omega)
-    simp [analyse, ha, hne, hb1, hb2, hb3, hb4, freeCode, labelText, labelOut, h1, h2, h3, h4, h5]
+    simp [analyse, hshort, hbang, ha, hne, freeCode, labelText, labelOut, h1, h2, h3, h4, h5]
     rw [← List.append_assoc, rstrip_snoc_space _ _ (by decide)]
   · have h3 : ¬ (73 < List.length body + 1 + 1 + 1 + 1 + 1 + 1 + 1 ∧ lim = true) := by
       simp at hl; intro ⟨h, hl'⟩; have := hl hl'; omega
     have h3' : ¬ (lim = true ∧ 66 < List.length body) := by
       simp at hl; intro ⟨hl', h⟩; have := hl hl'; omega
-    simp [analyse, ha, hne, hb1, hb2, hb3, hb4, freeCode, labelText, labelOut, h3, h3']
+    simp [analyse, hshort, hbang, ha, hne, freeCode, labelText, labelOut, h3, h3']
     cases lim <;> simp_all <;> omega
 
 
-theorem continue_code (lim : Bool) (lab body : Str) (c : Bool) (hlab : lab.length ≤ 6) :
+theorem continue_code (v : Variant) (lim : Bool) (lab body : Str) (c : Bool) (hlab : lab.length ≤ 6) :
     (continueLine
-      { conv := freeCode lim lab body false, regular := true, cont := c,
+      { conv := freeCode v lim lab body false, regular := true, cont := c,
         long := lim && decide (body.length > 66),
-        excess := if lim && decide (body.length > 66) then '!' :: (body.drop 66 ++ ['\n']) else [] }).conv
-      = freeCode lim lab body true := by
+        excess := if lim && decide (body.length > 66) then excessMark v ++ (body.drop 66 ++ ['\n']) else [] }).conv
+      = freeCode v lim lab body true := by
   by_cases hl : (lim && decide (body.length > 66)) = true
   · have hlen : (rstrip (lab ++ List.take 66 body)).length ≤ 72 := by
       have := rstrip_length_le (lab ++ List.take 66 body)
@@ -116,33 +143,135 @@ theorem length5 (l : Str) (h : l.length = 5) : ∃ a b c d e, l = [a, b, c, d, e
   match l, h with
   | [a, b, c, d, e], _ => exact ⟨a, b, c, d, e, rfl⟩
 
+/-! ### blanks -/
+
+theorem isBlank_replicate (n : Nat) : isBlank (List.replicate n ' ') = true := by
+  simp [isBlank, isSpace]
+
+theorem isBlank_append (s t : Str) : isBlank (s ++ t) = (isBlank s && isBlank t) := by
+  simp [isBlank]
+
+theorem lstrip_blank_append (s t : Str) (h : isBlank s = true) : lstrip (s ++ t) = lstrip t := by
+  induction s with
+  | nil => rfl
+  | cons c cs ih =>
+    simp [isBlank] at h
+    simp only [List.cons_append, lstrip, h.1, ↓reduceIte]
+    exact ih (by simp [isBlank]; exact h.2)
+
+theorem lstrip_replicate_append (n : Nat) (t : Str) : lstrip (List.replicate n ' ' ++ t) = lstrip t :=
+  lstrip_blank_append _ _ (isBlank_replicate n)
+
+theorem rstrip_blank (s : Str) (h : isBlank s = true) : rstrip s = [] := by
+  have : isBlank s.reverse = true := by simpa [isBlank] using h
+  simp [rstrip, lstrip_blank_nil _ this]
+
+theorem strip_blank (s : Str) (h : isBlank s = true) : strip s = [] := by
+  simp [strip, lstrip_blank_nil _ h, rstrip]
+  rfl
+
+/-- `line[6:].lstrip()[:1] == "!"` does not depend on the line terminator -/
+theorem lstrip_nl_head (body : Str) :
+    ((lstrip (body ++ ['\n'])).head? == some '!') = ((lstrip body).head? == some '!') := by
+  induction body with
+  | nil => decide
+  | cons c cs ih =>
+    by_cases hc : isSpace c = true
+    · simp only [List.cons_append, lstrip, hc, ↓reduceIte, ih]
+    · simp [lstrip, hc]
+
+/-- the two variant conditions of `analyse_code`, from `fieldOk` -/
+theorem fieldOk_hyps (v : Variant) (a b c d e c6 : Char) (body : Str)
+    (h : fieldOk v [a, b, c, d, e] c6 body = true) :
+    (v.blankShort && isBlank (a :: b :: c :: d :: e :: c6 :: (body ++ ['\n']))) = false ∧
+    (v.col7Comment && isBlank [a, b, c, d, e, c6] &&
+        ((lstrip (body ++ ['\n'])).head? == some '!')) = false := by
+  simp only [fieldOk, Bool.and_eq_true, Bool.not_eq_true'] at h
+  obtain ⟨h1, h2⟩ := h
+  constructor
+  · have : isBlank (a :: b :: c :: d :: e :: c6 :: (body ++ ['\n']))
+        = isBlank ([a, b, c, d, e] ++ c6 :: body) := by
+      simp [isBlank, isSpace]
+    rw [this]; exact h1
+  · rw [lstrip_nl_head]
+    simpa using h2
+
+/-! ### blank-only lines and column-7 comment lines -/
+
+theorem replicate6 (m : Nat) (t : Str) :
+    List.replicate (m + 6) ' ' ++ t = ' ' :: ' ' :: ' ' :: ' ' :: ' ' :: ' ' :: (List.replicate m ' ' ++ t) := by
+  simp [List.replicate_succ]
+
+theorem analyse_blank_long (v : Variant) (lim : Bool) (m : Nat) (hv : v.blankShort = true) :
+    analyse v lim (List.replicate (m + 6) ' ' ++ ['\n']) =
+      { conv := List.replicate m ' ' ++ ['\n'], regular := false, cont := false, long := false, excess := [] } := by
+  rw [replicate6]
+  have hb : isBlank (List.replicate m ' ' ++ ['\n']) = true := by
+    rw [isBlank_append, isBlank_replicate]; decide
+  have hb' : isBlank (' ' :: ' ' :: ' ' :: ' ' :: ' ' :: ' ' :: (List.replicate m ' ' ++ ['\n'])) = true := by
+    simp only [isBlank, List.all_cons] at hb ⊢
+    simp [hb, isSpace]
+  have hl : lstrip (List.replicate m ' ' ++ ['\n']) = [] := lstrip_blank_nil _ hb
+  simp [analyse, isShortLine, bangLine, hv, hb', hl, commentHead, labelText, strip, lstrip, rstrip, isSpace, lower]
+
+theorem analyse_bang7 (v : Variant) (lim : Bool) (k : Nat) (rest : Str) (hv : v.col7Comment = true) :
+    analyse v lim (List.replicate (6 + k) ' ' ++ '!' :: rest) =
+      { conv := List.replicate (6 + k) ' ' ++ '!' :: rest, regular := false, cont := false, long := false, excess := [] } := by
+  rw [Nat.add_comm 6 k, replicate6]
+  have hl : lstrip (List.replicate k ' ' ++ '!' :: rest) = '!' :: rest := by
+    rw [lstrip_replicate_append]; simp [lstrip, isSpace]
+  simp [analyse, isShortLine, bangLine, hv, hl, commentHead, isBlank, isSpace]
+
+theorem analyse_blank_short (v : Variant) (lim : Bool) (n : Nat) (hn : n ≤ 5) :
+    analyse v lim (List.replicate n ' ' ++ ['\n']) =
+      { conv := ['\n'], regular := false, cont := false, long := false, excess := [] } := by
+  have : n = 0 ∨ n = 1 ∨ n = 2 ∨ n = 3 ∨ n = 4 ∨ n = 5 := by omega
+  rcases this with rfl | rfl | rfl | rfl | rfl | rfl <;>
+    simp [analyse, isShortLine, bangLine, commentHead, labelText, strip, lstrip, rstrip, isSpace, lower, List.replicate]
+
+theorem analyse_blank (v : Variant) (lim : Bool) (n : Nat) (h : (decide (n ≤ 5) || v.blankShort) = true) :
+    analyse v lim (List.replicate n ' ' ++ ['\n']) =
+      { conv := List.replicate (n - 6) ' ' ++ ['\n'], regular := false, cont := false, long := false, excess := [] } := by
+  by_cases hn : n ≤ 5
+  · rw [analyse_blank_short v lim n hn]
+    have : n - 6 = 0 := by omega
+    simp [this]
+  · have hv : v.blankShort = true := by simpa [hn] using h
+    obtain ⟨m, rfl⟩ : ∃ m, n = m + 6 := ⟨n - 6, by omega⟩
+    rw [analyse_blank_long v lim m hv]
+    simp
+
 /-- what `analyse` says about the line of a well-formed item -/
-theorem analyse_item (lim : Bool) (it : Item) (h : it.ok = true) :
-    (analyse lim (fixedLine it)).conv = freeLine lim it false ∧
-    (analyse lim (fixedLine it)).regular = it.isRegular ∧
-    (analyse lim (fixedLine it)).cont = it.isCont ∧
+theorem analyse_item (v : Variant) (lim : Bool) (it : Item) (h : it.ok v = true) :
+    (analyse v lim (fixedLine it)).conv = freeLine v lim it false ∧
+    (analyse v lim (fixedLine it)).regular = it.isRegular ∧
+    (analyse v lim (fixedLine it)).cont = it.isCont ∧
     (it.isRegular = true →
-      (continueLine (analyse lim (fixedLine it))).conv = freeLine lim it true) := by
+      (continueLine (analyse v lim (fixedLine it))).conv = freeLine v lim it true) := by
   cases it with
   | init lab5 c6 body =>
     simp only [Item.ok, Bool.and_eq_true, beq_iff_eq, Bool.not_eq_true', bne_iff_ne] at h
-    obtain ⟨⟨⟨⟨h5, hc⟩, hh⟩, hb⟩, h6⟩ := h
+    obtain ⟨⟨⟨⟨⟨h5, hc⟩, hh⟩, hb⟩, h6⟩, hf⟩ := h
     obtain ⟨a, b, c, d, e, rfl⟩ := length5 lab5 h5
-    have := analyse_code lim a b c d e c6 body (by simpa using hc) (by simpa using hh) (by simpa using hb)
+    obtain ⟨hs, hn⟩ := fieldOk_hyps v a b c d e c6 body hf
+    have := analyse_code v lim a b c d e c6 body (by simpa using hc) (by simpa using hh) (by simpa using hb) hs hn
     simp only [fixedLine, List.cons_append, List.nil_append]
     rw [this]
     refine ⟨rfl, rfl, ?_, fun _ => ?_⟩
     · simp [Item.isCont]; intro hs; simp [hs] at h6; exact h6
-    · exact continue_code lim _ body _ (labelOut_length_le _ rfl)
+    · exact continue_code v lim _ body _ (labelOut_length_le _ rfl)
   | cont c6 body =>
     simp only [Item.ok, Bool.not_eq_true'] at h
-    have := analyse_code lim ' ' ' ' ' ' ' ' ' ' c6 body (by decide) (by decide) (by decide)
+    have hc6 : isSpace c6 = false := by
+      simp only [Bool.or_eq_false_iff] at h; exact h.1
+    have := analyse_code v lim ' ' ' ' ' ' ' ' ' ' c6 body (by decide) (by decide) (by decide)
+      (by simp [isBlank, hc6]) (by simp [isBlank, hc6])
     simp only [fixedLine, blanks5, List.cons_append, List.nil_append]
     rw [this]
     have hl : labelOut [' ', ' ', ' ', ' ', ' '] = [] := by decide
     refine ⟨by simp [freeLine, hl], rfl, ?_, fun _ => ?_⟩
     · simp [Item.isCont, h]
-    · rw [hl]; exact continue_code lim [] body _ (by simp)
+    · rw [hl]; exact continue_code v lim [] body _ (by simp)
   | comment c rest =>
     simp only [Item.ok, Bool.and_eq_true, bne_iff_ne] at h
     obtain ⟨hc, ho⟩ := h
@@ -153,12 +282,14 @@ theorem analyse_item (lim : Bool) (it : Item) (h : it.ok = true) :
     simp only [Item.ok, Bool.and_eq_true, Bool.not_eq_true'] at h
     obtain ⟨hc, hb⟩ := h
     have hb' : '!' ∈ List.take 4 (List.tail l) := by simpa using hb
-    simp [analyse, fixedLine, hc, hb', freeLine, Item.isRegular, Item.isCont]
+    simp [analyse, bangLine, fixedLine, hc, hb', freeLine, Item.isRegular, Item.isCont]
     split <;> rfl
   | blank n =>
-    simp only [Item.ok, decide_eq_true_eq] at h
-    have : n = 0 ∨ n = 1 ∨ n = 2 ∨ n = 3 ∨ n = 4 ∨ n = 5 := by omega
-    rcases this with rfl | rfl | rfl | rfl | rfl | rfl <;> cases lim <;> decide
+    simp only [Item.ok] at h
+    simp [fixedLine, analyse_blank v lim n h, freeLine, Item.isRegular, Item.isCont]
+  | bang7 k rest =>
+    simp only [Item.ok] at h
+    simp [fixedLine, analyse_bang7 v lim k rest h, freeLine, Item.isRegular, Item.isCont]
   | cpp rest =>
     simp [analyse, fixedLine, commentHead, freeLine, Item.isRegular, Item.isCont]
     split <;> rfl
@@ -173,19 +304,19 @@ theorem contHead_append (s : List FLine) (f : FLine) (h : s ≠ []) :
     well-formed items yields the held lines - the first of them continued iff
     the next statement-carrying line is a continuation - followed by the
     line-by-line free-form rendering. -/
-theorem convGo_sim (lim : Bool) (items : List Item) (stack : List FLine)
-    (hok : ∀ it ∈ items, it.ok = true) (hst : stack ≠ [] ∨ nextIsCont items = false) :
-    convGo lim stack (renderFixed items) =
-      (if nextIsCont items then contHead stack else stack).map (·.conv) ++ renderFree lim items := by
+theorem convGo_sim (v : Variant) (lim : Bool) (items : List Item) (stack : List FLine)
+    (hok : ∀ it ∈ items, it.ok v = true) (hst : stack ≠ [] ∨ nextIsCont items = false) :
+    convGo v lim stack (renderFixed items) =
+      (if nextIsCont items then contHead stack else stack).map (·.conv) ++ renderFree v lim items := by
   induction items generalizing stack with
   | nil => simp [renderFixed, convGo, nextIsCont, renderFree]
   | cons it rest ih =>
     have hit := hok it (by simp)
-    have hrest : ∀ i ∈ rest, i.ok = true := fun i hi => hok i (by simp [hi])
-    obtain ⟨hconv, hreg, hcont, hcl⟩ := analyse_item lim it hit
+    have hrest : ∀ i ∈ rest, i.ok v = true := fun i hi => hok i (by simp [hi])
+    obtain ⟨hconv, hreg, hcont, hcl⟩ := analyse_item v lim it hit
     simp only [renderFixed, List.map_cons, convGo, hreg, hcont]
     by_cases hr : it.isRegular = true
-    · have ih' := ih [analyse lim (fixedLine it)] hrest (Or.inl (by simp))
+    · have ih' := ih [analyse v lim (fixedLine it)] hrest (Or.inl (by simp))
       simp only [renderFixed] at ih'
       simp only [hr, ↓reduceIte, ih', nextIsCont, renderFree, Bool.true_and]
       congr 1
@@ -193,7 +324,7 @@ theorem convGo_sim (lim : Bool) (items : List Item) (stack : List FLine)
       · simp [hn, contHead, hcl hr]
       · simp [hn, hconv]
     · have hr' : it.isRegular = false := by simpa using hr
-      have ih' := ih (stack ++ [analyse lim (fixedLine it)]) hrest (Or.inl (by simp))
+      have ih' := ih (stack ++ [analyse v lim (fixedLine it)]) hrest (Or.inl (by simp))
       simp only [renderFixed] at ih'
       simp only [hr', Bool.false_eq_true, ↓reduceIte, ih', nextIsCont, renderFree, Bool.false_and]
       by_cases hn : nextIsCont rest = true
@@ -204,6 +335,27 @@ theorem convGo_sim (lim : Bool) (items : List Item) (stack : List FLine)
         simp [hn, contHead_append _ _ hs, hconv]
       · simp [hn, hconv]
 
+
+/-! ### held-back lines between a statement line and its continuation line -/
+
+theorem nextIsCont_fill (fill : List Item) (rest : List Item)
+    (hf : ∀ f ∈ fill, f.isRegular = false) : nextIsCont (fill ++ rest) = nextIsCont rest := by
+  induction fill with
+  | nil => rfl
+  | cons f fs ih =>
+    have h1 := hf f (by simp)
+    simp only [List.cons_append, nextIsCont, h1, Bool.false_eq_true, ↓reduceIte]
+    exact ih (fun g hg => hf g (by simp [hg]))
+
+theorem renderFree_fill (v : Variant) (lim : Bool) (fill : List Item) (rest : List Item)
+    (hf : ∀ f ∈ fill, f.isRegular = false) :
+    renderFree v lim (fill ++ rest) = fill.map (fun f => freeLine v lim f false) ++ renderFree v lim rest := by
+  induction fill with
+  | nil => rfl
+  | cons f fs ih =>
+    have h1 := hf f (by simp)
+    simp only [List.cons_append, renderFree, h1, Bool.false_and, List.map_cons]
+    rw [ih (fun g hg => hf g (by simp [hg]))]
 
 /-! ### the reader's comment scanner on converted lines -/
 
